@@ -21,6 +21,7 @@ class C08(Check):
     id = 'C08'
     module = 'Xrl.Props.C08'
     namespace = 'Xrl.C08'
+    extra_modules = [('Xrl.Props.C08%s' % x, 'Xrl.C08') for x in 'bcdefg']
     functions = CONSTF + ['CS_FluorShell_Kissel_%s' % v for v in VAR] + ['CS_FluorLine_Kissel_%s' % v for v in VAR]
     assumptions = ['the Kissel photo-ionisation table is EMPTY in this tree (data/kissel_pe.dat): in the shipped configuration every Kissel call must fail cleanly; '
                    'the code is exercised with values in a second configuration whose Kissel table is synthetic (tools/synth_kissel.py: well-formed, not physical)',
@@ -96,7 +97,7 @@ class C08(Check):
                             fn = '%s_FluorShell_Kissel%s' % (pre, '_' + v if v else '')
                             out.append('%s %d %d %s E' % (fn, Z, sh, hx(E)))
                     out.append('CS_Photo_Partial %d %d %s E' % (Z, sh, hx(E))); out.append('CSb_Photo_Partial %d %d %s E' % (Z, sh, hx(E)))
-                for ln in [0, 1, 2, 3, 4, -1, -2, -3, -5, -29, -30, -58, -59, -63, -85, -86, -89, -90, -95, -113, -114, -150, -200, -219, -383, -384]:
+                for ln in [0, 1, 2, 3, 4, -1, -2, -3, -5, -29, -30, -58, -59, -63, -85, -86, -89, -90, -95, -113, -114, -116, -118, -137, -150, -159, -181, -200, -219, -383, -384]:
                     for v in list(VAR) + ['']:
                         for pre in ('CS', 'CSb'):
                             out.append('%s_FluorLine_Kissel%s %d %d %s E' % (pre, '_' + v if v else '', Z, ln, hx(E)))
@@ -205,6 +206,35 @@ class C08(Check):
                 nontriv += 1
                 if got in (None, 'bad') or not core.close(got, exp, 1e-9):
                     viol.append(dict(key=l, got=o, expected='value %r = yield x vacancy production (%s)' % (exp, variant), what='cascade oracle over public primitives'))
-        return viol[:200], cnt, nontriv
+        # line cross sections: shell value x radiative rate, shell taken from the line macro's NAME
+        shell_of = {}
+        for nm, v in n['lines'].items():
+            m = re.match(r'(K|[LM]\d)[LMNOPQ]\d', nm)
+            if m and v < 0: shell_of.setdefault(v, SH.index(m.group(1)))
+        shellval = {}
+        for l, o in zip(kl, ck):
+            t = l.split()
+            if re.fullmatch(r'CS_FluorShell_Kissel(?:_(\w+))?', t[0]): shellval[(t[0].replace('Shell', 'Line'), t[1], int(t[2]), t[3])] = val(o)
+        for l, o in zip(kl, ck):
+            t = l.split()
+            if not re.fullmatch(r'CS_FluorLine_Kissel(?:_(\w+))?', t[0]): continue
+            ln = int(t[2])
+            if ln not in shell_of or shell_of[ln] > 8: continue
+            sv = shellval.get((t[0], t[1], shell_of[ln], t[3]))
+            rr = g('RadRate', int(t[1]), ln)
+            if sv in (None, 'bad') or sv is None: continue
+            cnt += 1
+            got = val(o)
+            if rr > 0 and sv:
+                nontriv += 1
+                if got in (None, 'bad') or not core.close(got, sv * rr, 1e-9):
+                    intra = SH[shell_of[ln]][0] == 'M' and [k for k, v in n['lines'].items() if v == ln and re.fullmatch(r'M\dM\d', k)]
+                    viol.append(dict(key='kissel_pe.c:337 line_mappings excludes the intra-M lines' if intra else l, got=o,
+                                     expected='value %r = shell value x RadRate' % (sv * rr), what='Kissel line cross section (%s)' % l))
+        seen = set(); out = []
+        for v in viol:
+            if v['key'] in seen: continue
+            seen.add(v['key']); out.append(v)
+        return out[:200], cnt, nontriv
 
 CHECK = C08()
